@@ -12,16 +12,16 @@ from ..ref import Graph
 
 LEVEL = "exploration"
 RULE = ("MazeDatasetCollection built from member datasets with prescribed lengths: exhaustively every length vector in {0,1,2}^k for "
-        "k<=5 (363 vectors) plus random vectors (k<=8, lengths<=6, zeros at start/middle/end and repeated), member grid sizes equal "
-        "and different; for every index 0<=i<len the item must be *the very object* (is) at position i of the concatenation; len, "
+        "k<=5 (363 vectors) plus random vectors (k<=8, lengths<=6, zeros at start/middle/end and repeated) plus members of 126..300 mazes (cumulative lengths past 127/255; thorough: 33000), member grid sizes equal "
+        "and different; for every index 0<=i<len (and again in random order) the item must be *the very object* (is) at position i of the concatenation; len, "
         ".mazes, .dataset_lengths and .cfg.n_mazes must agree. "
         "non-trivial & distinct = distinct length vectors with >= 2 non-empty members and >= 1 empty member")
 ASSUMPTIONS = ["member configs carry n_mazes == len(member) (what generation and update_self_config produce)"]
 EXHAUSTIVE = {"quick": False, "thorough": False}
-NSHARDS = {"quick": 8, "thorough": 16}
+NSHARDS = {"quick": 16, "thorough": 16}
 THRESHOLDS = {"quick": {"c16:collections": 800, "c16:index-checks": 3000, "c16:vec-exhaustive": 363, "c16:zero-first": 50,
                         "c16:zero-middle": 50, "c16:zero-last": 50, "c16:repeated-zeros": 50, "c16:mixed-grid": 100,
-                        "c16:np-int-index": 300}}
+                        "c16:np-int-index": 300, "c16:long-members": 30, "c16:index-checks-second-pass": 2000}}
 THRESHOLDS["thorough"] = dict(THRESHOLDS["quick"])
 ANCHORS = ["maze_dataset.dataset.collected_dataset:MazeDatasetCollection.__getitem__",
            "maze_dataset.dataset.collected_dataset:MazeDatasetCollection.__len__",
@@ -77,6 +77,18 @@ def check_vector(ctx, lengths, grids, rng, tag):
             if item is not flat[i]:
                 where = next((k for k, f in enumerate(flat) if f is item), None)
                 ctx.violation("C16/getitem-wrong-object", f"col[{i}] is the object at flat position {where}", dict(case, index=i))
+        # second pass in random order (an index structure cached by the first pass must stay right)
+        if total:
+            for i in rng.permutation(total)[: min(total, 12)]:
+                i = int(i)
+                ctx.ev(); ctx.tally("c16:index-checks-second-pass")
+                try:
+                    item = col[i]
+                except Exception as e:  # noqa: BLE001
+                    ctx.violation(f"C16/getitem-raises/{type(e).__name__}", f"second pass, index {i}: {str(e)[:200]}", dict(case, index=i))
+                    continue
+                if item is not flat[i]:
+                    ctx.violation("C16/getitem-wrong-object", f"second pass: col[{i}] is not the object at flat position {i}", dict(case, index=i))
         # after update_self_config the counts must still agree
         col.update_self_config()
         ctx.check(col.cfg.n_mazes == total and len(col) == total, "C16/after-update_self_config-disagree",
@@ -109,6 +121,19 @@ def run(ctx):
             ctx.tally("c16:vec-exhaustive")
             if k % 97 == 0:
                 ctx.sample(dict(lengths=vec, grids=grids))
+    # long members: cumulative lengths beyond 127 / 255 / 32767 (narrow integer types), mazes shared by reference is not allowed -> fresh objects
+    BIG = [0, 1, 126, 127, 128, 129, 255, 256, 257, 300]
+    nbig = 40 if ctx.quick else 600
+    for j in range(nbig):
+        if not ctx.mine(j):
+            continue
+        rng = ctx.sub_rng("big", j)
+        klen = int(rng.integers(2, 5))
+        vec = [BIG[int(rng.integers(len(BIG)))] for _ in range(klen)]
+        if j % 10 == 0 and not ctx.quick:
+            vec[int(rng.integers(klen))] = 33000
+        check_vector(ctx, vec, [2] * klen, rng, "big")
+        ctx.tally("c16:long-members")
     n = 600 if ctx.quick else 20000
     for j in range(n):
         if not ctx.mine(j):
